@@ -58,19 +58,31 @@ package errbase
 //@ unfold complete(e) = wrapperOf(e) != nil ? completeWrapper(wrapperOf(e)) : completeLeaf(leafOf(e))
 
 //@ func DecodeError
-//@   props C05 C01 C04
+//@   props C05 C01 C04 C11 C13
 //@   requires complete(enc)
+//@   defines decOf(enc)
 //@   ensures result != nil
 
 //@ func decodeLeaf
-//@   props C05 C01 C04
+//@   props C05 C01 C04 C11 C13
+//@   purecalls
 //@   requires completeLeaf(enc)
 //@   ensures result != nil
+//@   ensures typeis(result, *opaqueLeaf) ==> result.(*opaqueLeaf).msg == enc.Message && result.(*opaqueLeaf).details == enc.Details
+//@   ensures typeis(result, *opaqueLeafCauses) ==> result.(*opaqueLeafCauses).msg == enc.Message && result.(*opaqueLeafCauses).details == enc.Details && len(result.(*opaqueLeafCauses).causes) == len(enc.MultierrorCauses)
+//@   ensures typeis(result, *opaqueLeafCauses) ==> (forall i int :: 0 <= i && i < len(enc.MultierrorCauses) ==> result.(*opaqueLeafCauses).causes[i] == decOf(deref(enc.MultierrorCauses[i])))
+//@   ensures (leafDecoders.has(enc.Details.ErrorTypeMark.FamilyName) && callres0(leafDecoders[enc.Details.ErrorTypeMark.FamilyName], ctx, enc.Message, enc.Details.ReportablePayload, payloadOf(enc.Details.FullDetails)) != nil) ==> result == callres0(leafDecoders[enc.Details.ErrorTypeMark.FamilyName], ctx, enc.Message, enc.Details.ReportablePayload, payloadOf(enc.Details.FullDetails))
+//@   ensures (!leafDecoders.has(enc.Details.ErrorTypeMark.FamilyName) && !multiCauseDecoders.has(enc.Details.ErrorTypeMark.FamilyName) && !hasMethod(typeof(payloadOf(enc.Details.FullDetails)), "Error() string")) ==> (len(enc.MultierrorCauses) > 0 ? typeis(result, *opaqueLeafCauses) : typeis(result, *opaqueLeaf))
+//@   loop 1: invariant forall j int :: 0 <= j && j < $n ==> causes[j] == decOf(deref(enc.MultierrorCauses[j]))
+//@   loop 2: invariant forall j int :: 0 <= j && j < $n ==> causes[j] == decOf(deref(enc.MultierrorCauses[j]))
 
 //@ func decodeWrapper
-//@   props C05 C01 C04
+//@   props C05 C01 C04 C11
+//@   purecalls
 //@   requires completeWrapper(enc)
 //@   ensures result != nil
+//@   ensures (decoders.has(enc.Details.ErrorTypeMark.FamilyName) && callres0(decoders[enc.Details.ErrorTypeMark.FamilyName], ctx, decOf(enc.Cause), enc.Message, enc.Details.ReportablePayload, payloadOf(enc.Details.FullDetails)) != nil) ==> result == callres0(decoders[enc.Details.ErrorTypeMark.FamilyName], ctx, decOf(enc.Cause), enc.Message, enc.Details.ReportablePayload, payloadOf(enc.Details.FullDetails))
+//@   ensures !(decoders.has(enc.Details.ErrorTypeMark.FamilyName) && callres0(decoders[enc.Details.ErrorTypeMark.FamilyName], ctx, decOf(enc.Cause), enc.Message, enc.Details.ReportablePayload, payloadOf(enc.Details.FullDetails)) != nil) ==> typeis(result, *opaqueWrapper) && result.(*opaqueWrapper).cause == decOf(enc.Cause) && result.(*opaqueWrapper).prefix == enc.Message && result.(*opaqueWrapper).details == enc.Details && result.(*opaqueWrapper).messageType == enc.MessageType
 
 // ---- the opaque carrier types ----
 
